@@ -84,6 +84,9 @@ type runner struct {
 	mu      sync.Mutex
 	pending map[string]chan struct{}
 	invTags map[string]bool
+	// requests of the platform driver that carry their own time limit (restore: hook timeout, reset / shutdown:
+	// deadline): tag -> that limit in ms; they return within limit + exit grace (2 s) + slack
+	platTags map[string]int
 	marks   map[string]int
 	ninv    int
 	opWait  time.Duration
@@ -311,7 +314,7 @@ func Run(sc *Scenario, outDir string) Outcome {
 	_ = s.Rec.StreamTo(filepath.Join(outDir, sc.ID+".partial.ndjson"))
 	defer os.Remove(filepath.Join(outDir, sc.ID+".partial.ndjson"))
 	defer s.Rec.CloseStream()
-	r := &runner{s: s, pending: map[string]chan struct{}{}, invTags: map[string]bool{}, marks: map[string]int{}, opWait: 20 * time.Second}
+	r := &runner{s: s, pending: map[string]chan struct{}{}, invTags: map[string]bool{}, platTags: map[string]int{}, marks: map[string]int{}, opWait: 20 * time.Second}
 	if sc.Opt.OpWaitMs > 0 {
 		r.opWait = time.Duration(sc.Opt.OpWaitMs) * time.Millisecond
 	}
@@ -334,6 +337,9 @@ func Run(sc *Scenario, outDir string) Outcome {
 					if op.API == "invoke" {
 						r.invTags[op.Tag] = true
 					}
+					if op.API == "restore" || op.API == "reset" || op.API == "shutdown" {
+						r.platTags[op.Tag] = op.Ms
+					}
 					r.mu.Unlock()
 				}
 				wg.Add(1)
@@ -355,6 +361,7 @@ func Run(sc *Scenario, outDir string) Outcome {
 			r.mu.Lock()
 			ch := r.pending[op.Tag]
 			isInv := r.invTags[op.Tag]
+			platMs, isPlat := r.platTags[op.Tag]
 			r.mu.Unlock()
 			if ch != nil {
 				bound := r.opWait
@@ -362,10 +369,16 @@ func Run(sc *Scenario, outDir string) Outcome {
 					// an invocation must be answered within timeout + reset allowance (2 s) + exit grace (2 s) + slack
 					bound = time.Duration(s.Opt.TimeoutMs)*time.Millisecond + 4*time.Second + 3*time.Second
 				}
+				if isPlat {
+					if platMs < 0 {
+						platMs = 0
+					}
+					bound = time.Duration(platMs)*time.Millisecond + 2*time.Second + 3*time.Second
+				}
 				select {
 				case <-ch:
 				case <-time.After(bound):
-					if isInv {
+					if isInv || isPlat {
 						s.Rec.Emit("drv", "NoOutcome", "tag", op.Tag, "boundMs", bound.Milliseconds())
 					}
 					herr = hangError{"wait " + op.Tag + " did not return"}
